@@ -4,6 +4,7 @@ import Proofs.Machine.GlobalOrderLazyLog
 import Proofs.Ingest
 import Proofs.AnsiGit
 import Proofs.Gates
+import Proofs.Machine.CommitState
 /-!
 C04 — text that is not diff/blame/grep output passes through byte for byte.
 
@@ -622,5 +623,35 @@ theorem passthrough_whatever_the_options (cfg : Machine.Cfg) (m : Machine.M) (l 
   exact Machine.passthrough_exact cfg m l hst hsrc no
 
 end ClaimGates
+
+/-! ### The state after a commit line (`git log -p`: what makes the message lines pass through) -/
+
+/-- `commit_line_enters_commit_meta`. One iteration of `consume` on a line matched by the commit regex leaves the
+machine in `CommitMeta` — from every state (inside a hunk, after a hunk-less file section, …) and for every commit
+style the handler deals with itself: drawn with any decoration, raw with a decoration, **or omitted** (the state is
+set before the handler decides whether to draw). The `Author:` / `Date:` / message lines that follow are therefore
+met in `CommitMeta` and `passthrough_rows_in_place` applies to them, also with `commit-style = omit`. (With
+`commit-style raw` and no decoration the handler leaves the line to `emit_line_unchanged`: `shouldHandle` is false —
+the state it hands on is `CommitMeta` as well: `commit_handler_always_sets_commit_meta`.) -/
+theorem commit_line_enters_commit_meta (cfg : Machine.Cfg) (m m' : Machine.M) (l : Machine.L)
+    (hre : l.commitRe = true)
+    (hs : Machine.shouldHandle cfg
+      { Machine.pendingDiffName cfg (Machine.flushMP (Machine.stepInit m l)) with st := .commitMeta } = true)
+    (h : Machine.step cfg m l = .ok m') : m'.st = .commitMeta :=
+  Machine.step_commit_line_st cfg m m' l hre hs h
+
+/-- The handler itself: whatever it answers (claimed or not), the machine it returns is in `CommitMeta`. -/
+theorem commit_handler_always_sets_commit_meta (cfg : Machine.Cfg) (m m' : Machine.M) (l : Machine.L) (b : Bool)
+    (hre : l.commitRe = true) (h : Machine.handleCommitMeta cfg m l = .ok (b, m')) : m'.st = .commitMeta :=
+  Machine.handleCommitMeta_st cfg m m' l b hre h
+
+-- `commit-style = omit`, met inside a hunk (`git log -p`, second commit): claimed, nothing drawn, state `CommitMeta`
+example :
+    (match Machine.step { commitStyle := { isOmitted := true } }
+        { st := .hunkZero .unified, source := .gitDiff, n := 7 }
+        { raw := "commit 0123abc".toList, text := "commit 0123abc".toList, graphemes := [], commitRe := true,
+          blame := false, grep := 0, submodule := none } with
+     | .ok m' => (m'.st == .commitMeta, m'.out.length)
+     | .error _ => (false, 99)) = (true, 0) := by decide
 
 end C04
